@@ -5,7 +5,7 @@ from __future__ import annotations
 import ast
 
 from ..loader import AnalysisError, World, module_of
-from ..mutate import edit_def, remove_stmt, replace_expr
+from ..mutate import edit_def, remove_stmt, replace_expr, replace_stmt
 from ..paths import exception_name, function_paths
 from ..run import Control
 from ..terms import path_env, show, term
@@ -188,11 +188,92 @@ def run(ctx, ck) -> None:
               'the letter swap exchanges the *first* occurrences found with .index() and nothing refuses a letter repeated inside the blocks subscripts: for a diagonal such as '
               "'ijj,j->i' the transpose gets 'jij,j->i' instead of 'jii,j->i' - accepted and wrong (silently, when the axis sizes coincide)", instance='repeated letters')
 
+    _e6(ck, rew, lefts_n, rights_n, results_n, sum_name, tr_name)
+
     # the return is reached only after all guards
     rets = [p for p in function_paths(rew) if p.exit == 'return']
     ck.expect('E3', len(rets) == 1 and sum(1 for ev in rets[0].events if ev[0] == 'cond') >= 4, rew, 'the single return is dominated by all rejections',
               'the rewritten subscripts can be returned without passing all rejections', instance='return dominated')
     ck.floor('E3', len(raw) + len(pfacts), 6, 'rejection guards')
+
+
+def _e6(ck, rew, lefts_n, rights_n, results_n, sum_set, tr_set) -> None:
+    """E6: the returned subscripts are *derived* to be (blocks with the two letters exchanged, input, result).
+
+    The string manipulation on the returning path is interpreted over symbolic strings (sa/strsym.py): the blocks
+    subscripts are `A S B T C` or `A T B S C` with S the contracted letter, T the free one and A, B, C arbitrary
+    substrings; the result is `D T E`.  Exchanging S and T in the blocks, with input and result unchanged, is the
+    adjoint (the layout guard, E3, makes the input layout the result layout with T replaced by S)."""
+    from ..loader import Incomplete
+    from ..strsym import FStr, Letter, Opaque, Seg, Seq, StrInterp
+
+    if sum_set is None or tr_set is None:
+        return
+
+    def letter_var(set_name):
+        for st in rew.body:
+            if isinstance(st, ast.Assign) and len(st.targets) == 1 and isinstance(st.targets[0], ast.Name):
+                v = st.value
+                names = {n.id for n in ast.walk(v) if isinstance(n, ast.Name)}
+                if set_name in names and not (isinstance(v, ast.Call) and isinstance(v.func, ast.Name) and v.func.id == 'len') and not isinstance(v, (ast.BinOp, ast.Compare)):
+                    return st.targets[0].id
+            if isinstance(st, ast.Assign) and isinstance(st.targets[0], (ast.Tuple, ast.List)) and len(st.targets[0].elts) == 1 and isinstance(st.value, ast.Name) and st.value.id == set_name:
+                if isinstance(st.targets[0].elts[0], ast.Name):
+                    return st.targets[0].elts[0].id
+        return None
+
+    s_var, t_var = letter_var(sum_set), letter_var(tr_set)
+    rets = [p for p in function_paths(rew) if p.exit == 'return']
+    if s_var is None or t_var is None or len(rets) != 1:
+        ck.incomplete('E6', rew, 'cannot identify the variables holding the contracted and the free letter, or the single returning path', instance='derived subscripts')
+        return
+    S, T = Letter('S'), Letter('T')
+    A, B, C, D, E, R = (Seg(n) for n in 'ABCDER')
+    protected = {lefts_n, rights_n, results_n, s_var, t_var}
+    stmts = [ev[1] if ev[0] == 'stmt' else ast.Expr(value=ev[1]) for ev in rets[0].events if ev[0] in ('stmt', 'cond')] + [rets[0].node]
+    done = 0
+    for name, blocks in (('contracted letter first', (A, S, B, T, C)), ('free letter first', (A, T, B, S, C))):
+        env = {lefts_n: Seq(blocks), rights_n: Seq((R,)), results_n: Seq((D, T, E)), s_var: S, t_var: T}
+        interp = StrInterp()
+        inst = f'derived subscripts, {name}'
+        try:
+            out = None
+            for st in stmts:
+                if isinstance(st, ast.Return):
+                    out = interp.ev(st.value, env)
+                    break
+                if isinstance(st, ast.Assign) and all(isinstance(t, ast.Name) and t.id in protected for t in st.targets):
+                    v = interp.ev(st.value, env)
+                    if isinstance(v, Opaque):
+                        continue  # the statements that bind the roles themselves
+                    for t in st.targets:
+                        env[t.id] = v
+                    continue
+                if isinstance(st, ast.Assign) and isinstance(st.targets[0], (ast.Tuple, ast.List)) and any(isinstance(t, ast.Name) and t.id in protected for t in st.targets[0].elts):
+                    continue  # (blocks, input, result) = parse(...): roles
+                interp.stmt(st, env)
+        except Incomplete as exc:
+            ck.incomplete('E6', rew, f'{exc.site}: {exc.why}', instance=inst)
+            continue
+        want_blocks = Seq(tuple(T if t == S else S if t == T else t for t in blocks))
+        if not (isinstance(out, FStr) and len(out.parts) == 5 and out.parts[1] == ',' and out.parts[3] == '->' and all(isinstance(out.parts[i], Seq) for i in (0, 2, 4))):
+            ck.incomplete('E6', rew, f'the returned subscripts are not of the form f"{{blocks}},{{input}}->{{result}}" over derivable strings ({out})', instance=inst)
+            continue
+        got_b, got_i, got_r = out.parts[0], out.parts[2], out.parts[4]
+        done += 1
+        ck.expect('E6', got_b == want_blocks and got_i == Seq((R,)) and got_r == Seq((D, T, E)), rew,
+                  f'blocks `{Seq(blocks).show()}` become `{want_blocks.show()}`: exactly the two letters exchanged, every other subscript in place; input and result subscripts unchanged',
+                  f'for blocks subscripts `{Seq(blocks).show()}` (A, B, C arbitrary substrings) the transposed blocks subscripts are `{got_b.show()}`, the adjoint needs `{want_blocks.show()}`'
+                  + ('' if got_i == Seq((R,)) and got_r == Seq((D, T, E)) else f'; input/result become `{got_i.show()}` / `{got_r.show()}`')
+                  + ': other axes of the blocks are relabelled, so the transposed operator contracts the wrong axes (wrong values when the sizes agree, an einsum error otherwise)', instance=inst)
+        # the expected layout compared with the input: result with T replaced by S
+        for node, a, b in interp.compares:
+            pair = [x for x in (a, b) if isinstance(x, Seq)]
+            if len(pair) == 2 and Seq((R,)) in pair:
+                other = pair[0] if pair[1] == Seq((R,)) else pair[1]
+                ck.expect('E6', other == Seq((D, S, E)), node, 'the layout compared with the input subscripts is the result with the free letter replaced by the contracted one',
+                          f'the input subscripts are compared with `{other.show()}`, the adjoint needs `D S E` (result `D T E` with T replaced by S)', instance=f'expected layout, {name}')
+    ck.floor('E6', done, 2, 'letter arrangements derived')
 
 
 def _role_order(t, subs, blocks, x, env):
@@ -224,6 +305,7 @@ def controls(world: World) -> list[Control]:
     return [
         Control('roles-swapped', lambda w: edit_def(w, DENSE, 'DenseBlockDiagonalOperator.mv', lambda fn: replace_expr(fn, 'jax.tree.map(ft.partial(jnp.einsum, self.subscripts), self.blocks, x)', 'jax.tree.map(ft.partial(jnp.einsum, self.subscripts), x, self.blocks)')), 'C14.E1'),
         Control('layout-guard-weakened', lambda w: edit_def(w, DENSE, 'DenseBlockDiagonalOperator._get_transposed_subscripts', lambda fn: replace_expr(fn, 'expected_results != rights', 'set(expected_results) != set(rights)')), 'C14.E3'),
+        Control('half-swap', lambda w: edit_def(w, DENSE, 'DenseBlockDiagonalOperator._get_transposed_subscripts', lambda fn: replace_stmt(fn, 'lefts_as_list[transpose_axis_number] = sum_axis', 'lefts_as_list[transpose_axis_number] = transpose_axis')), 'C14.E6'),
         Control('several-free-axes-accepted', lambda w: edit_def(w, DENSE, 'DenseBlockDiagonalOperator._get_transposed_subscripts', lambda fn: remove_stmt(fn, 'if len(transpose_axis_as_set) > 1:', prefix=True)), 'C14.E3'),
         Control('transpose-input-structure', lambda w: edit_def(w, DENSE, 'DenseBlockDiagonalOperator.transpose', lambda fn: replace_expr(fn, 'self.out_structure()', 'self.in_structure()')), 'C14.E2'),
     ]
